@@ -294,6 +294,8 @@ def eval_sampling(case):
 def eval_case(case):
     if case["sub"] == "hash":
         return eval_hash(case)
+    if case["sub"] == "scripted":
+        return eval_scripted(case)
     return eval_sampling(case)
 
 
@@ -309,7 +311,36 @@ def shards(ctx):
         parts = 10 if ROUTINES[name][1] in ("g1", "g2") else 2
         for k in range(parts):
             out.append({"sub": "sampling", "routine": name, "part": k, "parts": parts})
+    out.append({"sub": "scripted"})
     return out
+
+
+def scripts():
+    """digit scripts for the base-|x| samplers that the deviation bound cannot reach (three or four non-default digits): the
+    recombined value exactly r-1 (accepted), r and r+1 (whole tuple rejected, next tuple used), 0 (rejected where Zp* is sampled),
+    the largest tuple, and a tuple rejected digit-wise followed by y = r"""
+    return [("y=r-1", [0, 0, X - 1, X - 1]), ("y=r", [1, 0, X - 1, X - 1]), ("y=r+1", [2, 0, X - 1, X - 1]), ("y=x^4-1", [X - 1] * 4), ("y=0", [0, 0, 0, 0]),
+            ("y=1", [1, 0, 0, 0]), ("digit-reject-then-r", [X, 0, 0, 0, 1, 0, X - 1, X - 1]), ("r-twice", [1, 0, X - 1, X - 1, 1, 0, X - 1, X - 1])]
+
+
+SCRIPTED = ["random_zpstar_powers", "wk_random_gt", "gt_multiply_random", "random_zpstar", "zp_random"]
+
+
+def eval_scripted(case):
+    menu, default = menus(case["seed"])
+    msgs = []
+    for cfg in CONFIGS:
+        L = ffi.lib(cfg)
+        st = envexp.ScriptStream(case["script"], 8, default)
+        obs = run_routine(L, case["routine"], st)
+        if st.overrun:
+            msgs.append("%s: did not terminate within %d requests" % (cfg, st.horizon))
+            continue
+        msgs += ["%s: %s" % (cfg, m) for m in postconditions(L, case["routine"], obs, cfg == "asm")]
+        st2 = envexp.ScriptStream(case["script"], 8, default)
+        if run_routine(L, case["routine"], st2) != obs:
+            msgs.append("%s: not deterministic for the same random stream" % cfg)
+    return msgs
 
 
 def run_shard(ctx, shard):
@@ -328,6 +359,15 @@ def run_shard(ctx, shard):
                 ctx.fail(case, "; ".join(msgs[:3]), sig="hash:" + kind)
             if ctx.out_of_time():
                 return
+        return
+    if shard["sub"] == "scripted":
+        for name in SCRIPTED:
+            for label, script in scripts():
+                case = {"sub": "scripted", "routine": name, "seed": ctx.seed, "script": script, "label": label}
+                msgs = eval_scripted(case)
+                ctx.ok(True, "sampling-scripted:" + label, n=len(CONFIGS))
+                if msgs:
+                    ctx.fail(case, "%s with digits %s: %s" % (name, label, "; ".join(msgs[:3])), sig="sampling:%s" % name)
         return
     name = shard["routine"]
     menu, default = menus(ctx.seed)
